@@ -14,9 +14,13 @@ PY
 while read fid pid commit; do
   D=$(mktemp -d /tmp/cello_rev_XXXXXX)
   git -C /repo diff $commit~1 $commit -R > $D/p.diff
-  res=$(MUT_LINES=40 tools/mutant.sh $D/p.diff $pid quick 2>&1 | grep -cE "^VIOLATION property=$pid")
+  if ! ( cd /repo && patch -p1 --dry-run -s < $D/p.diff > /dev/null 2>&1 ); then
+    v="n/a: the reverse patch no longer applies (a later fix: rewrote the same lines)"
+  else
+    res=$(MUT_LINES=40 tools/mutant.sh $D/p.diff $pid quick 2>&1 | grep -cE "^VIOLATION property=$pid")
+    if [ "$res" -gt 0 ]; then v="VIOLATION reported"; else v="**not reported**"; fi
+  fi
   rm -rf $D
-  if [ "$res" -gt 0 ]; then v="VIOLATION reported"; else v="**not reported**"; fi
   echo "| $fid | $pid | $commit | $v |" | tee -a $OUT.tmp
 done < /tmp/regress_list.txt
 rm -f /tmp/regress_list.txt
